@@ -12,6 +12,7 @@ from lib import framework as fw
 from lib import fstree
 from props import walk_common as wc
 from props import xargs_common as xc
+from props import known_common as kc
 
 RULE = ("(tree with links, expression before -delete) cases; the expression is a disjunction of -name tests or -type f / -true, so matched directories "
         "are sometimes non-empty (removal fails); non-trivial = distinct case in which at least one entry is matched and at least one is not")
@@ -170,6 +171,7 @@ def run(ctx):
                            "explain": "C10_exact: the removed entries are exactly the matched ones, a directory only once empty; everything else unchanged"})
         followed_links(ctx, forest)
         stderr_full(ctx, forest)
+        test_diagnostic_unwritable(ctx, forest)
     finally:
         forest.close()
 
@@ -191,6 +193,37 @@ def stderr_full(ctx, forest):
         ctx.violation("find root ! -name keep -delete with standard error on a full device: exit %d, left %s; expected exit 1 and %s"
                       % (p.returncode, [x.decode() for x in left], [x.decode() for x in want]),
                       {"property": "C10", "kind": "stderr-full", "exit": p.returncode, "left": [x.decode() for x in left], "expected_left": [x.decode() for x in want]})
+
+
+def test_diagnostic_unwritable(ctx, forest):
+    """a TEST in front of -delete that cannot examine one entry (here -empty on a directory the user may not read) diagnoses it; when that
+    diagnostic cannot be written either, the walk still goes on and removes what the expression selects"""
+    import subprocess
+    base = os.path.join(forest.dir, b"tu")
+    os.makedirs(os.path.join(base, b"d", b"a_unr"))
+    os.makedirs(os.path.join(base, b"d", b"z"))
+    for f in (b"d/z/empty1", b"d/zz_empty2"):
+        open(os.path.join(base, f), "wb").close()
+    pre = kc.unprivileged(base)
+    if pre is None:
+        ctx.notes.append("test_diagnostic_unwritable: no unprivileged user available here, scenario skipped")
+        return
+    for root, dirs, files in os.walk(base):
+        for n in [root] + [os.path.join(root, f) for f in files]:
+            os.chown(n, 65534, 65534)
+    os.chmod(os.path.join(base, b"d", b"a_unr"), 0)
+    try:
+        with open("/dev/full", "wb") as full:
+            p = subprocess.run(pre + [fw.FIND, "d", "-sorted", "-empty", "-delete"], stdout=subprocess.DEVNULL, stderr=full, cwd=base, env=xc.ENV, timeout=60)
+    finally:
+        os.chmod(os.path.join(base, b"d", b"a_unr"), 0o755)
+    left = sorted(snapshot(base))
+    want = [b"d", b"d/a_unr"]
+    ctx.count(("test-diagnostic-unwritable",), True, "stderr-full")
+    if left != want or p.returncode != 1:
+        ctx.violation("find d -empty -delete as an unprivileged user, one unreadable directory, standard error on a full device: exit %d, left %s; expected exit 1 and %s"
+                      % (p.returncode, [x.decode() for x in left], [x.decode() for x in want]),
+                      {"property": "C10", "kind": "test-diagnostic-unwritable", "exit": p.returncode, "left": [x.decode() for x in left], "expected_left": [x.decode() for x in want]})
 
 
 def followed_links(ctx, forest):
